@@ -116,6 +116,25 @@ theorem required_lists_present_paged (k : RKind) (hk : k.isPaged = true) (item :
     simp only [List.length_map, List.length_take]
     omega
 
+/-- a registry listed whole goes out as the array of its items, the empty registry as `[]` -/
+theorem listAll_sent (item : Bytes → JVal) (keys : List Bytes) :
+    listAll .listRoots item keys = .sent (.arr (keys.map item)) := by
+  unfold listAll
+  by_cases h : keys = []
+  · subst h; rfl
+  · simp only [h, if_false]; rfl
+
+/-- … in every state a registry can be in -/
+theorem listReg_sent (k : RKind) (hk : k.isListed = true) (item : Bytes → JVal) (keys : List Bytes) (ps : Nat)
+    (c : Cursor) (hc : c ≠ .garbage) : ∃ items, (listReg k item keys ps c).1 = .sent (.arr items) := by
+  unfold listReg
+  by_cases hp : k.isPaged = true
+  · simp only [hp, if_true]; exact ⟨_, listPage_sent k hp item keys ps c hc⟩
+  · have : k = .listRoots := by cases k <;> simp_all [RKind.isListed, RKind.isPaged]
+    subst this
+    simp only [RKind.isPaged, Bool.false_eq_true, if_false]
+    exact ⟨_, listAll_sent item keys⟩
+
 /-- **list_page_beyond_last_is_empty_array.** -/
 theorem list_page_beyond_last (k : RKind) (hk : k.isPaged = true) (item : Bytes → JVal) (keys : List Bytes)
     (ps : Nat) (uid : Bytes) (h : ∀ x ∈ keys, keyLt uid x = false) :
